@@ -364,9 +364,12 @@ def build(prop_id: str, component: str, extract_file: str, need_props=True) -> B
         props_v = COQ / "props" / f"{prop_id}.v"
         text = strip_coq_comments(props_v.read_text()) if props_v.exists() else ""
         br.obligations = re.findall(r"^\s*(?:Theorem|Lemma|Corollary)\s+(\w+)", text, re.M)
+        rules_v = COQ / "props" / f"{prop_id}rules.v"     # optional second file of the same property (compiled as a dependency)
+        if rules_v.exists():
+            br.obligations += re.findall(r"^\s*(?:Theorem|Lemma|Corollary)\s+(\w+)", strip_coq_comments(rules_v.read_text()), re.M)
         br.forbidden = forbidden_scan()
         if ok and need_props:
-            rc, out = sh(f"timeout 3000 make -j{NPROC} props/{prop_id}.vo 2>&1 | tail -40", cwd=COQ, timeout=3100)
+            rc, out = sh(f"timeout 1500 make -j{NPROC} props/{prop_id}.vo 2>&1 | tail -40", cwd=COQ, timeout=1600)
             rc2 = 0 if (COQ / "props" / f"{prop_id}.vo").exists() and "Error" not in out else 1
             br.log += out
             if rc2 == 0:
@@ -430,7 +433,7 @@ def build_driver(component: str, extract_file: str):
     gdir.mkdir(parents=True, exist_ok=True)
     exe = gdir / f"{component}_driver"
     # the model/spec files the extraction depends on must be compiled first
-    rc, out = sh(f"timeout 3000 make -j{NPROC} $(coqdep -Q theories OJD -Q props OJDProps -sort extract/{extract_file} 2>/dev/null | tr ' ' '\\n' | grep '^theories/' | sed 's/\\.v$/.vo/' | tr '\\n' ' ') 2>&1 | tail -30", cwd=COQ, timeout=3100)
+    rc, out = sh(f"timeout 1500 make -j{NPROC} $(coqdep -Q theories OJD -Q props OJDProps -sort extract/{extract_file} 2>/dev/null | tr ' ' '\\n' | grep '^theories/' | sed 's/\\.v$/.vo/' | tr '\\n' ' ') 2>&1 | tail -30", cwd=COQ, timeout=1600)
     log = out
     if "Error" in out:
         return False, log
